@@ -81,6 +81,8 @@ pub enum Content {
     /// disk space nor (in the model, see `materialize`) touched memory outside the islands, so
     /// offsets beyond 2^31 / 2^32 can be requested.
     Sparse { len: u64, seed: u64 },
+    /// the gzip form (stored blocks) of another content
+    GzipOf(Box<Content>),
 }
 
 pub const ISLAND: u64 = 64;
@@ -128,6 +130,7 @@ impl Content {
                 }
                 v
             }
+            Content::GzipOf(inner) => crate::util::gzip_stored(&inner.materialize()),
             Content::Sparse { len, seed } => {
                 // alloc_zeroed: the pages are mapped lazily, only the islands are touched
                 let mut v = vec![0u8; *len as usize];
@@ -143,6 +146,7 @@ impl Content {
             Content::Literal(b) => b.0.len(),
             Content::Gen { marker, len, .. } => (*len).max(marker.len()),
             Content::Sparse { len, .. } => *len as usize,
+            Content::GzipOf(inner) => inner.len() + 18 + 5 * (inner.len() / 0xFFFF + 1),
         }
     }
 }
